@@ -4,7 +4,7 @@
   named after nodes, and what the derived event `D*` looks like; the input classes (decidable predicates) that the
   totality theorem of Algorithm 3 excludes.
 -/
-import Y0.Lemmas.CtfTrAlg3
+import Y0.Lemmas.CtfRoot
 
 namespace Y0.CtfTr
 open Ctf Relation Y0.MG
@@ -13,11 +13,30 @@ open Ctf Relation Y0.MG
 defined next to the model in Y0/Model/CtfTr.lean) -/
 
 theorem line2C_eq (g : MG Name) (o c : Event) :
-    line2C g o c = (dstarVars g o c).bind fun D =>
-      (convertEvent g (deriveEvent o D)).bind fun ev => .ok (ev, dedup' (D.map (·.name))) := by
-  unfold line2C dstarVars
+    line2C g o c = (condComps g o c).bind fun comps => (lookupOutcomes g o c).bind fun lk => line2COf g comps lk := by
+  unfold line2C
+  simp only [bind, Except.bind]
+
+theorem dstarVars_eq (g : MG Name) (o c : Event) :
+    dstarVars g o c = (condComps g o c).bind fun comps => (lookupOutcomes g o c).bind fun lk =>
+      .ok (deriveVars comps (eventVars lk)) := by
+  unfold dstarVars
   simp only [bind, Except.bind, pure, Except.pure]
-  cases ancestralComponents g (eventVars c) (unionVars (eventVars c) (eventVars o)) <;> rfl
+
+/-- lines 1-2 as they were before `fix:` f335599 (the outcomes looked up under their raw form); equal to `line2C` when
+every outcome is given in the form the components store (`lookupOutcomes g o c = .ok o`); the value theorems of
+Algorithm 3 are proved for this case -/
+def line2CRaw (g : MG Name) (o c : Event) : Except Err (Event × List Name) :=
+  (condComps g o c).bind fun comps => line2COf g comps o
+
+def dstarVarsRaw (g : MG Name) (o c : Event) : Except Err (List Var) :=
+  (condComps g o c).bind fun comps => .ok (deriveVars comps (eventVars o))
+
+theorem line2C_eq_raw (g : MG Name) (o c : Event) (h : lookupOutcomes g o c = .ok o) :
+    line2C g o c = line2CRaw g o c ∧ dstarVars g o c = dstarVarsRaw g o c := by
+  rw [line2C_eq, dstarVars_eq, h]
+  unfold line2CRaw dstarVarsRaw
+  constructor <;> cases condComps g o c <;> rfl
 
 /-! ### small list facts -/
 
@@ -179,11 +198,34 @@ theorem convertEvent_mem (g : MG Name) (e ev : Event) (h : convertEvent g e = .o
     subst hv
     rfl
 
-/-- **lines 1-2 never raise** on a well-formed graph for query variables named after nodes -/
-theorem line2C_ok (g : MG Name) (hg : g.WF) (o c : Event)
+/-- `_transport_conditional_counterfactual_query_line_2` never raises for components over nodes -/
+theorem line2COf_ok (g : MG Name) (comps : List (List Var)) (hnodes : ∀ C ∈ comps, ∀ w ∈ C, w.name ∈ g.nodes)
+    (lk : Event) :
+    ∃ dstar, line2COf g comps lk = .ok (dstar, dedup' ((deriveVars comps (eventVars lk)).map (·.name))) ∧
+      (∀ w ∈ deriveVars comps (eventVars lk), w.name ∈ g.nodes) ∧
+      DstarFacts g lk (deriveVars comps (eventVars lk)) dstar (dedup' ((deriveVars comps (eventVars lk)).map (·.name))) := by
+  have hDn : ∀ w ∈ deriveVars comps (eventVars lk), w.name ∈ g.nodes := by
+    intro w hw
+    obtain ⟨C, hC, hwC, _⟩ := (mem_deriveVars comps _ w).1 hw
+    exact hnodes C hC w hwC
+  obtain ⟨ev, hev⟩ := mapM_ok_of_forall (fun p : Var × Ctf.Val => do pure ((← convertOne g p.1), p.2))
+    (deriveEvent lk (deriveVars comps (eventVars lk))) (fun p hp => by
+      obtain ⟨w, hw⟩ := convertOne_total g p.1 (hDn p.1 ((mem_deriveEvent lk _ p).1 hp).1)
+      exact ⟨(w, p.2), by simp only [bind, Except.bind, hw, pure, Except.pure]⟩)
+  have hev' : convertEvent g (deriveEvent lk (deriveVars comps (eventVars lk))) = .ok ev := hev
+  refine ⟨ev, ?_, hDn, ⟨rfl, ?_, ?_⟩⟩
+  · unfold line2COf
+    simp only [bind, Except.bind, hev', pure, Except.pure]
+  · intro q hq; exact (convertEvent_mem g _ ev hev' q).1 hq
+  · intro p hp
+    obtain ⟨w, hw⟩ := convertOne_total g p.1 (hDn p.1 ((mem_deriveEvent lk _ p).1 hp).1)
+    exact ⟨(w, p.2), (convertEvent_mem g _ ev hev' (w, p.2)).2 ⟨p, hp, hw, rfl⟩, hw, rfl⟩
+
+/-- line 1 never raises, and every root has its ancestral set inside one component -/
+theorem condComps_ok (g : MG Name) (hg : g.WF) (o c : Event)
     (ho : ∀ p ∈ o, VarOK g p.1) (hc : ∀ p ∈ c, VarOK g p.1) :
-    ∃ D dstar dNames, dstarVars g o c = .ok D ∧ line2C g o c = .ok (dstar, dNames) ∧
-      (∀ w ∈ D, w.name ∈ g.nodes) ∧ DstarFacts g o D dstar dNames := by
+    ∃ comps, condComps g o c = .ok comps ∧ (∀ C ∈ comps, ∀ w ∈ C, w.name ∈ g.nodes) ∧
+      ∀ p ∈ o, ∀ A, ancestralSetAfter g (eventVars c) p.1 = .ok A → ∀ x ∈ A, ∃ C ∈ comps, x ∈ C := by
   have hcond : ∀ x ∈ eventVars c, x.name ∈ g.nodes := by
     intro x hx
     obtain ⟨p, hp, rfl⟩ := (mem_eventVars c x).1 hx
@@ -194,25 +236,113 @@ theorem line2C_ok (g : MG Name) (hg : g.WF) (o c : Event)
     · obtain ⟨p, hp, rfl⟩ := (mem_eventVars c r).1 h; exact hc p hp
     · obtain ⟨p, hp, rfl⟩ := (mem_eventVars o r).1 h; exact ho p hp
   obtain ⟨comps, hcomps, hnodes⟩ := ancestralComponents_ok g hg _ _ hcond hroots
-  have hD : dstarVars g o c = .ok (deriveVars comps (eventVars o)) := by
-    unfold dstarVars
-    simp only [bind, Except.bind, hcomps, pure, Except.pure]
-  have hDn : ∀ w ∈ deriveVars comps (eventVars o), w.name ∈ g.nodes := by
-    intro w hw
-    obtain ⟨C, hC, hwC, _⟩ := (mem_deriveVars comps _ w).1 hw
-    exact hnodes C hC w hwC
-  obtain ⟨ev, hev⟩ := mapM_ok_of_forall (fun p : Var × Ctf.Val => do pure ((← convertOne g p.1), p.2))
-    (deriveEvent o (deriveVars comps (eventVars o))) (fun p hp => by
-      obtain ⟨w, hw⟩ := convertOne_total g p.1 (hDn p.1 ((mem_deriveEvent o _ p).1 hp).1)
-      exact ⟨(w, p.2), by simp only [bind, Except.bind, hw, pure, Except.pure]⟩)
-  have hev' : convertEvent g (deriveEvent o (deriveVars comps (eventVars o))) = .ok ev := hev
-  refine ⟨_, ev, _, hD, ?_, hDn, ⟨rfl, ?_, ?_⟩⟩
-  · rw [line2C_eq, hD]
-    simp only [Except.bind, hev']
-  · intro q hq; exact (convertEvent_mem g _ ev hev' q).1 hq
-  · intro p hp
-    obtain ⟨w, hw⟩ := convertOne_total g p.1 (hDn p.1 ((mem_deriveEvent o _ p).1 hp).1)
-    exact ⟨(w, p.2), (convertEvent_mem g _ ev hev' (w, p.2)).2 ⟨p, hp, hw, rfl⟩, hw, rfl⟩
+  refine ⟨comps, hcomps, hnodes, ?_⟩
+  intro p hp A hA x hx
+  unfold ancestralComponents at hcomps
+  simp only [bind, Except.bind] at hcomps
+  cases hsets : (unionVars (eventVars c) (eventVars o)).mapM (ancestralSetAfter g (eventVars c)) with
+  | error e => rw [hsets] at hcomps; cases hcomps
+  | ok sets =>
+    rw [hsets] at hcomps
+    simp only [pure, Except.pure, Except.ok.injEq] at hcomps
+    subst hcomps
+    have hroot : p.1 ∈ unionVars (eventVars c) (eventVars o) :=
+      (mem_unionVars' _ _ _).2 (Or.inr ((mem_eventVars o _).2 ⟨p, hp, rfl⟩))
+    have hAs : A ∈ sets := (mapM_ok_mem _ _ _ hsets A).2 ⟨p.1, hroot, hA⟩
+    exact (ancestral_components_spec g sets).2.1 A hAs x hx
+
+/-- the lookup keys of Algorithm 3 have the names and values of the outcomes -/
+def LookupOf (o lk : Event) : Prop := List.Forall₂ (fun p p' => p'.1.name = p.1.name ∧ p'.2 = p.2) o lk
+
+theorem LookupOf.refl (o : Event) : LookupOf o o := by
+  unfold LookupOf
+  induction o with
+  | nil => exact .nil
+  | cons a l ih => exact .cons ⟨rfl, rfl⟩ ih
+
+theorem LookupOf.of_out {o lk : Event} (h : LookupOf o lk) (p : Var × Ctf.Val) (hp : p ∈ o) :
+    ∃ p' ∈ lk, p'.1.name = p.1.name ∧ p'.2 = p.2 := by
+  unfold LookupOf at h
+  induction h with
+  | nil => cases hp
+  | cons hab _ ih =>
+    rcases List.mem_cons.1 hp with rfl | hp
+    · exact ⟨_, List.mem_cons_self, hab⟩
+    · obtain ⟨p', hp', h'⟩ := ih hp
+      exact ⟨p', List.mem_cons_of_mem _ hp', h'⟩
+
+theorem LookupOf.of_lk {o lk : Event} (h : LookupOf o lk) (p' : Var × Ctf.Val) (hp' : p' ∈ lk) :
+    ∃ p ∈ o, p'.1.name = p.1.name ∧ p'.2 = p.2 := by
+  unfold LookupOf at h
+  induction h with
+  | nil => cases hp'
+  | cons hab _ ih =>
+    rcases List.mem_cons.1 hp' with rfl | hp'
+    · exact ⟨_, List.mem_cons_self, hab⟩
+    · obtain ⟨p, hp, h'⟩ := ih hp'
+      exact ⟨p, List.mem_cons_of_mem _ hp, h'⟩
+
+/-- **the lookup keys are computed without an error, and each is a member of the ancestral set of its outcome**
+(`Ctf.ancestralSetRoot_mem`) -/
+theorem lookupOutcomes_ok (g : MG Name) (hg : g.WF) (o c : Event) (hc : ∀ p ∈ c, p.1.name ∈ g.nodes) :
+    ∀ (l : Event), (∀ p ∈ l, p.1.name ∈ g.nodes ∧ p.1.star = none ∧ (p.1.isCf = true ∨ p.1.isIv = false)) →
+    ∃ lk, l.mapM (fun p => do pure (← ancestralSetRoot g (eventVars c) p.1, p.2)) = .ok lk ∧ LookupOf l lk ∧
+      ∀ p' ∈ lk, ∃ p ∈ l, ∃ A, ancestralSetAfter g (eventVars c) p.1 = .ok A ∧ p'.1 ∈ A := by
+  have hcond : ∀ x ∈ eventVars c, x.name ∈ g.nodes := by
+    intro x hx
+    obtain ⟨p, hp, rfl⟩ := (mem_eventVars c x).1 hx
+    exact hc p hp
+  intro l
+  induction l with
+  | nil => intro _; exact ⟨[], rfl, .nil, fun p' hp' => by cases hp'⟩
+  | cons a l ih =>
+    intro hl
+    obtain ⟨lk, hlk, hrel, hmem⟩ := ih (fun p hp => hl p (List.mem_cons_of_mem _ hp))
+    obtain ⟨hn, hs, hk⟩ := hl a List.mem_cons_self
+    obtain ⟨s, A, hsr, hA, hsA, hsn⟩ := ancestralSetRoot_mem g hg (eventVars c) hcond a.1 hn hs hk
+    refine ⟨(s, a.2) :: lk, ?_, .cons ⟨hsn, rfl⟩ hrel, ?_⟩
+    · have hlk' := hlk
+      simp only [bind, Except.bind, pure, Except.pure] at hlk'
+      simp only [List.mapM_cons, bind, Except.bind, hsr, pure, Except.pure, hlk']
+    · intro p' hp'
+      rcases List.mem_cons.1 hp' with rfl | hp'
+      · exact ⟨a, List.mem_cons_self, A, hA, hsA⟩
+      · obtain ⟨p, hp, A', hA', hpA'⟩ := hmem p' hp'
+        exact ⟨p, List.mem_cons_of_mem _ hp, A', hA', hpA'⟩
+
+/-- **lines 1-2 never raise** on a well-formed graph for query variables named after nodes, and — after `fix:` f335599 —
+**every outcome is found**: its lookup key is a variable of `D*` -/
+theorem line2C_ok (g : MG Name) (hg : g.WF) (o c : Event)
+    (ho : ∀ p ∈ o, VarOK g p.1) (hc : ∀ p ∈ c, VarOK g p.1) (hos : ∀ p ∈ o, p.1.star = none) :
+    ∃ lk D dstar dNames, lookupOutcomes g o c = .ok lk ∧ LookupOf o lk ∧ (∀ p ∈ lk, p.1 ∈ D) ∧
+      dstarVars g o c = .ok D ∧ line2C g o c = .ok (dstar, dNames) ∧
+      (∀ w ∈ D, w.name ∈ g.nodes) ∧ DstarFacts g lk D dstar dNames := by
+  obtain ⟨comps, hcomps, hnodes, hcover⟩ := condComps_ok g hg o c ho hc
+  obtain ⟨lk, hlk, hrel, hmem⟩ := lookupOutcomes_ok g hg o c (fun p hp => (hc p hp).1) o (fun p hp => by
+    refine ⟨(ho p hp).1, hos p hp, ?_⟩
+    rcases (ho p hp).2 with h | ⟨h, _⟩
+    · exact Or.inl h
+    · exact Or.inr h)
+  have hlk' : lookupOutcomes g o c = .ok lk := hlk
+  obtain ⟨dstar, h2, hDn, hfacts⟩ := line2COf_ok g comps hnodes lk
+  refine ⟨lk, _, dstar, _, hlk', hrel, ?_, ?_, ?_, hDn, hfacts⟩
+  · intro p' hp'
+    obtain ⟨p, hp, A, hA, hpA⟩ := hmem p' hp'
+    obtain ⟨C, hC, hpC⟩ := hcover p hp A hA p'.1 hpA
+    exact (mem_deriveVars comps _ _).2 ⟨C, hC, hpC, p'.1, hpC, (mem_eventVars lk _).2 ⟨p', hp', rfl⟩⟩
+  · rw [dstarVars_eq, hcomps, hlk']; rfl
+  · rw [line2C_eq, hcomps, hlk']; exact h2
+
+/-- lines 1-2 with the raw lookup (`line2CRaw`) never raise either -/
+theorem line2CRaw_ok (g : MG Name) (hg : g.WF) (o c : Event)
+    (ho : ∀ p ∈ o, VarOK g p.1) (hc : ∀ p ∈ c, VarOK g p.1) :
+    ∃ D dstar dNames, dstarVarsRaw g o c = .ok D ∧ line2CRaw g o c = .ok (dstar, dNames) ∧
+      (∀ w ∈ D, w.name ∈ g.nodes) ∧ DstarFacts g o D dstar dNames := by
+  obtain ⟨comps, hcomps, hnodes, _⟩ := condComps_ok g hg o c ho hc
+  obtain ⟨dstar, h2, hDn, hfacts⟩ := line2COf_ok g comps hnodes o
+  refine ⟨_, dstar, _, ?_, ?_, hDn, hfacts⟩
+  · unfold dstarVarsRaw; rw [hcomps]; rfl
+  · unfold line2CRaw; rw [hcomps]; exact h2
 
 /-! ### what `D*` looks like -/
 
